@@ -67,7 +67,7 @@ def run_chunk(args) -> List[Outcome]:
             outs[c.pid] = Outcome(c, "refused", pkg)
             continue
         outs[c.pid] = Outcome(c, "ok", pkg)
-        progs.append(build.Program(c.pid, backend, pkg.files))
+        progs.append(build.Program(c.pid, backend, pkg.files, c.info.get("prelude", "")))
     if progs:
         with build.Scratch() as s:
             exe, failed = build.compile_batch(s.path, progs, backend, extra_flags=flags)
@@ -150,7 +150,8 @@ def run_standalone(c: Case, events: List[Event], plans: List[Tuple[str, List[int
             (d / "Analyzer.cc").write_text(pkg.files["Analyzer.cc"], encoding="utf-8", errors="surrogateescape")
             build._ensure_stubs(stub, pkg.files["Analyzer.cc"], backend)
             src = "Analyzer.cc"
-        main = (f'#include "{build.model_header(backend)}"\n#include "{src}"\n'
+        (d / "prelude.h").write_text(c.info.get("prelude", ""))
+        main = (f'#include "{build.model_header(backend)}"\n#include "prelude.h"\n#include "{src}"\n'
                 "int main(){ auto evs = vm::parse_events(std::cin); auto plans = vm::parse_plan(std::cin);\n"
                 f" for (auto &p : plans) vm::run_job<{cls}>(p, evs); return 0; }}\n")
         (d / "main.cpp").write_text(main)
